@@ -115,7 +115,7 @@ Proof. intros; apply emits_opt; intros; apply emits_loc. Qed.
 
 (* ---------------------------------------------------------------- automation: split `fun st => f (g st)` *)
 Ltac emits_step :=
-  match goal with
+  lazymatch goal with
   | |- emits (fun st => st) _ => apply emits_id
   | |- emits (push _) _ => apply emits_push
   | |- emits (push_type (Some Label) _) _ => apply emits_push_label
@@ -124,7 +124,11 @@ Ltac emits_step :=
   | |- emits (fmt_loc _) _ => apply emits_loc
   | |- emits (fmt_otrivia _) _ => apply emits_otrivia
   | |- emits (fmt_opt fmt_loc _) _ => apply emits_opt_loc
-  | |- emits (fun st => ?f (@?g st)) _ => eapply emits_comp; [ | | ]
+  | |- emits (fun st => ?f (@?g st)) _ =>
+      lazymatch g with
+      | (fun st => st) => fail "no progress"
+      | _ => eapply emits_comp; [ | | ]
+      end
   end.
 
 Lemma emits_istring : forall s, emits (fmt_istring s) (istring_comments s).
